@@ -203,6 +203,11 @@ func runC11(c *core.Ctx) {
 				}
 			}
 		}
+		for _, l := range []int{63, 64, 65, 100, 150} {
+			for _, n := range []int{66, 1000, l, l + 1} {
+				cases = append(cases, tc{chainBook(l, nil), n, fmt.Sprintf("chain %d limit %d", l, n)})
+			}
+		}
 		nr := c.N(300, 3000)
 		for i := 0; i < nr; i++ {
 			rr := c.Rng("dag", i)
@@ -294,6 +299,11 @@ func runC11(c *core.Ctx) {
 	for cl := 1; cl <= 4; cl++ {
 		for _, n := range []int{1, 3, 10, 100000000} {
 			cases = append(cases, cli{cycleBook(cl, cl-1), n, "flag", cmds[r.Intn(len(cmds))], fmt.Sprintf("cycle %d limit %d via flag", cl, n)})
+		}
+	}
+	for _, l := range []int{64, 110} {
+		for _, n := range []int{1000, l + 1, l} {
+			cases = append(cases, cli{chainBook(l, nil), n, "flag", cmds[0], fmt.Sprintf("chain %d limit %d via flag", l, n)})
 		}
 	}
 	// default limit 10: chains 9, 10, 11 with no setting at all
